@@ -327,8 +327,8 @@ pub fn long_partner(r: &mut Rng, long: &Operand, table: &[Iv]) -> Option<Operand
         4 => format!(">={}.0.0 <{}.5.0 || {}.5.0", n / 2, n, n / 4),
         5 => format!(">=1.{}.0 <1.{}.3", n / 2, n.saturating_sub(2)),
         6 => format!("{}.5.0 || >={}.0.0-0", n / 3, n / 2),
-        7 => {
-            // another list, sized so that the product stays a few hundred pieces
+        7 if n <= 300 => {
+            // another list, sized so that the product stays a few thousand pieces
             let m = 18 + r.below(3);
             let a: Vec<String> = (0..m).map(|k| format!("<=1.0.{} || >=1.{}.0", k * 3 + 1, k)).collect();
             a.join("||")
